@@ -23,6 +23,8 @@ type OutsideAtom struct {
 	Light bool
 	// Imports: further import paths the atom's code uses (standard library)
 	Imports []string
+	// Positions: when set, the only host positions used (families whose dimension is independent of the position)
+	Positions []string
 }
 
 var lightPositions = map[string]bool{"first": true, "inloop": true, "inclosure": true, "aftereturnif": true, "elseifarm": true}
@@ -343,6 +345,9 @@ func AtomPackageVariant(prefix string, a OutsideAtom, rng interface{ Intn(int) i
 			continue
 		}
 		if a.Light && !lightPositions[pos] {
+			continue
+		}
+		if len(a.Positions) > 0 && !strings.Contains(" "+strings.Join(a.Positions, " ")+" ", " "+pos+" ") {
 			continue
 		}
 		fn := fmt.Sprintf("host_%s_%s", a.ID, pos)
